@@ -3,7 +3,7 @@ from props import LEAN_TB, CORR_TB
 
 PROP = dict(
     level="proof",
-    lean=["Tcell.Props.C06"], namespaces=["Tcell.Props.C06"], engines=["pipe"],
+    lean=["Tcell.Props.C06", "Tcell.Props.C06Real"], namespaces=["Tcell.Props.C06", "Tcell.Props.C06Real"], engines=["pipe"],
     classes=["hang", "blocks:", "goroutine-leak", "poll-", "channel-not-closed", "second-fini", "panic-after-fini", "hang-after-fini",
              "input-dead-after-resume", "input-lost-after-resume", "resize-dead-after-resume", "init-error", "ref:", "crash", "fatal"],
     trusted_base=[LEAN_TB, CORR_TB,
